@@ -3,6 +3,7 @@ package c02
 
 import (
 	"bytes"
+	"crypto"
 	"crypto/sha256"
 	"crypto/x509"
 	"encoding/binary"
@@ -610,6 +611,21 @@ func checkCase(c Case) error {
 		// another image (the untampered original) is parsed while the derived one is alive
 		authenticode.Parse(bytes.NewReader(c.Orig))
 		hx.Class("original_parsed_in_between")
+	}
+	if variant%3 != 1 {
+		// a caller that asked for the digest first and then reused the returned slice as scratch space - here to hold the
+		// digest of the untampered original, the value the signature commits to: what Hash returns belongs to the caller,
+		// the verification that follows must still look at the bytes of this image
+		if d := bin.Hash(crypto.SHA256); d != nil {
+			fillWith := make([]byte, len(d))
+			if len(c.Orig) > 0 {
+				if oh, oerr := pehash.Hash(c.Orig); oerr == nil {
+					copy(fillWith, oh.Digest)
+				}
+			}
+			copy(d, fillWith)
+			hx.Class("digest_slice_overwritten_before_verify")
+		}
 	}
 	ok, verr := bin.Verify(cert)
 	// the same through signature objects that are parsed once and asked twice: first the genuine signer, then the certificate under test
